@@ -2,6 +2,8 @@ import Slu.Model.Refine
 import SluProofs.Lemmas.Lacon
 import SluProofs.Lemmas.Fold
 import SluProofs.Lemmas.FoldCongr
+import SluProofs.Lemmas.RefineResid
+import SluProofs.Lemmas.RefineDenom
 /-
 C13 — Reported backward error is the true backward error of the returned X.
 
@@ -42,19 +44,7 @@ theorem berrOf_eq_foldMax (Ar : Arith K Rat) (hdiv : ∀ r d, Ar.div1 r d = r / 
   · have h0 : rwork.getD i 0 ≠ 0 := ne_of_gt (lt_of_le_of_lt hs2 h)
     simp only [gt_iff_lt, h, if_true, h0, ne_eq, not_false_eq_true, smax_eq_max, hdiv, ratio]
 
-/-
-**C13 (BERR is the componentwise backward error) — full goal, `berr_is_cwbe_goal`, partly proved.**
-  For `Ar = arithQ` (or `arithQC`), every CSC matrix `A` (any order, duplicates summed), `x`, `b` of
-  length `n`, `tr ∈ {N,T,C}`: if every `d_i := (|op(A)||x| + |b|)_i` is `0` or `> safe2` then
-    berrX Ar tr A safmin eps b x = max_{i : d_i ≠ 0} |b - op(A) x|_i / d_i ,
-  and `d_i = 0 → (b - op(A) x)_i = 0`.
-  Proved below (`berr_is_cwbe_partial`): the safeguarded fold over the two work arrays is exactly that
-  maximum of `|work_i| / rwork_i` over the rows with `rwork_i ≠ 0` (bounds every row, attained, `≥ 0`).
-  Missing: the entrywise reading of the two scatter/gather folds, `resid … = b - op(A) x` and
-  `denom … = |op(A)||x| + |b|` (sum over the stored entries of a row resp. column).  The
-  correspondence check evaluates exactly this right-hand side in rational arithmetic on every case.
--/
-/-- the proved part of `berr_is_cwbe_goal`: BERR is the largest ratio `|work_i| / rwork_i` — it bounds
+/-- the array-level part of `berr_is_cwbe`: BERR is the largest ratio `|work_i| / rwork_i` — it bounds
 every row with a non-zero denominator, is attained by one of them (or is zero), and is `≥ 0`. -/
 theorem berr_is_cwbe_partial (Ar : Arith K Rat) (hdiv : ∀ r d, Ar.div1 r d = r / d) (s1 s2 : Rat) (hs2 : 0 ≤ s2)
     (work : Array K) (rwork : Array Rat)
@@ -68,6 +58,88 @@ theorem berr_is_cwbe_partial (Ar : Arith K Rat) (hdiv : ∀ r d, Ar.div1 r d = r
   rcases foldMaxIf_attained (fun i => rwork.getD i 0 ≠ 0) (ratio Ar work rwork) 0 (List.range rwork.size) with h | ⟨i, hi, h0, he⟩
   · left; exact h
   · right; exact ⟨i, List.mem_range.mp hi, h0, he⟩
+
+/-! ### BERR is the componentwise backward error -/
+
+section cwbe
+open Slu.Gssvx
+variable [CommRing K] [HasConj K] [Mag K Rat] [ScalarLaws K]
+
+/-- row `i` of `b - op(A) x`, `A(r,c)` being the sum of the stored entries at `(r,c)` -/
+def residRow (tr : Trans) (A : CSC K) (x b : Array K) (i : Nat) : K :=
+  b.getD i 0 - opMul (opOfTrans tr) (cscEntries A) (fun k => x.getD k 0) i
+
+/-- row `i` of `|op(A)||x| + |b|` with the library's magnitude -/
+def denomRow (Ar : Arith K Rat) (tr : Trans) (A : CSC K) (x b : Array K) (i : Nat) : Rat :=
+  Ar.absK (b.getD i 0) + opMul (opOfTrans tr) (absEntries Ar A) (fun k => Ar.absK (x.getD k 0)) i
+
+/-- **C13 (BERR is the componentwise backward error).** In exact arithmetic (`Ar = arithQ` on `Rat`,
+`arithQC` on `Cx Rat`, or any record obeying `ArithLaws`/`AbsLaws`), for every compressed-column matrix
+(any order, duplicates summed), every `x`, `b` and `trans ∈ {N,T,C}`: if every denominator
+`d_i = (|op(A)||x| + |b|)_i` is `0` or above `safe2`, the value `[sdcz]gsrfs` stores in `berr[j]` is
+`max_{i : d_i ≠ 0} |b - op(A) x|_i / d_i` — it bounds every such row, is attained (or is zero), is
+`≥ 0` — and the rows left out (`d_i = 0`) have a zero residual. -/
+theorem berr_is_cwbe (Ar : Arith K Rat) (laws : ArithLaws Ar) (al : AbsLaws Ar)
+    (hdiv : ∀ r d, Ar.div1 r d = r / d) (tr : Trans) (A : CSC K) (safmin eps : Rat) (b x : Array K)
+    (hs2 : 0 ≤ safe2 Ar A.n safmin eps)
+    (hsafe : ∀ i, i < b.size → denomRow Ar tr A x b i = 0 ∨ safe2 Ar A.n safmin eps < denomRow Ar tr A x b i) :
+    berrX Ar tr A safmin eps b x =
+      foldMaxIf (fun i => denomRow Ar tr A x b i ≠ 0)
+        (fun i => Ar.absK (residRow tr A x b i) / denomRow Ar tr A x b i) 0 (List.range b.size) ∧
+    (∀ i, i < b.size → denomRow Ar tr A x b i ≠ 0 →
+      Ar.absK (residRow tr A x b i) / denomRow Ar tr A x b i ≤ berrX Ar tr A safmin eps b x) ∧
+    (berrX Ar tr A safmin eps b x = 0 ∨ ∃ i, i < b.size ∧ denomRow Ar tr A x b i ≠ 0 ∧
+      Ar.absK (residRow tr A x b i) / denomRow Ar tr A x b i = berrX Ar tr A safmin eps b x) ∧
+    0 ≤ berrX Ar tr A safmin eps b x ∧
+    (∀ i, i < b.size → denomRow Ar tr A x b i = 0 → residRow tr A x b i = 0) := by
+  obtain ⟨rs, rv⟩ := resid_exact Ar laws tr A x b
+  obtain ⟨ds, dv⟩ := denom_exact Ar al laws.kzero tr A x b
+  have hsafe' : ∀ i, i < (denom Ar tr A x b).size →
+      (denom Ar tr A x b).getD i 0 = 0 ∨ safe2 Ar A.n safmin eps < (denom Ar tr A x b).getD i 0 := by
+    intro i hi
+    rw [ds] at hi
+    rw [dv i hi]; exact hsafe i hi
+  have heq : berrX Ar tr A safmin eps b x =
+      foldMaxIf (fun i => denomRow Ar tr A x b i ≠ 0)
+        (fun i => Ar.absK (residRow tr A x b i) / denomRow Ar tr A x b i) 0 (List.range b.size) := by
+    unfold berrX
+    rw [berrOf_eq_foldMax Ar hdiv _ _ hs2 _ _ hsafe', ds]
+    unfold foldMaxIf
+    apply foldl_congr_mem
+    intro i hi acc
+    have hi' := List.mem_range.mp hi
+    have e1 : (denom Ar tr A x b).getD i 0 = denomRow Ar tr A x b i := dv i hi'
+    have e2 : ratio Ar (resid Ar tr A x b) (denom Ar tr A x b) i =
+        Ar.absK (residRow tr A x b i) / denomRow Ar tr A x b i := by
+      unfold ratio
+      rw [e1, laws.kzero, rv i hi']; rfl
+    simp only [e1, e2]
+  refine ⟨heq, ?_, ?_, ?_, ?_⟩
+  · intro i hi h0
+    rw [heq]
+    exact foldMaxIf_ge_mem _ _ 0 _ i (List.mem_range.mpr hi) h0
+  · rw [heq]
+    rcases foldMaxIf_attained (fun i => denomRow Ar tr A x b i ≠ 0)
+      (fun i => Ar.absK (residRow tr A x b i) / denomRow Ar tr A x b i) 0 (List.range b.size) with h | ⟨i, hi, h0, he⟩
+    · left; exact h
+    · right; exact ⟨i, List.mem_range.mp hi, h0, he⟩
+  · rw [heq]; exact foldMaxIf_ge_init _ _ 0 _
+  · intro i _ h0
+    exact resid_zero_of_denom_zero Ar al tr A x b i h0
+
+/-- the theorem applies to the real and to the complex exact arithmetic -/
+example (tr : Trans) (A : CSC Rat) (safmin eps : Rat) (b x : Array Rat)
+    (hs2 : 0 ≤ safe2 arithQ A.n safmin eps)
+    (hsafe : ∀ i, i < b.size → denomRow arithQ tr A x b i = 0 ∨ safe2 arithQ A.n safmin eps < denomRow arithQ tr A x b i) :
+    0 ≤ berrX arithQ tr A safmin eps b x :=
+  (berr_is_cwbe arithQ arithQ_laws absQ_laws (fun _ _ => rfl) tr A safmin eps b x hs2 hsafe).2.2.2.1
+example (tr : Trans) (A : CSC (Cx Rat)) (safmin eps : Rat) (b x : Array (Cx Rat))
+    (hs2 : 0 ≤ safe2 arithQC A.n safmin eps)
+    (hsafe : ∀ i, i < b.size → denomRow arithQC tr A x b i = 0 ∨ safe2 arithQC A.n safmin eps < denomRow arithQC tr A x b i) :
+    0 ≤ berrX arithQC tr A safmin eps b x :=
+  (berr_is_cwbe arithQC arithQC_laws absQC_laws (fun _ _ => rfl) tr A safmin eps b x hs2 hsafe).2.2.2.1
+
+end cwbe
 
 /-! ### the loop -/
 
